@@ -17,6 +17,7 @@ import (
 
 	"fxmc/explore"
 	"fxmc/props/registry"
+	"fxmc/props/vote"
 	"fxmc/scen"
 	"fxmc/world"
 )
@@ -300,13 +301,22 @@ func init() {
 	registry.Register(&registry.Check{
 		ID:    "C03",
 		Level: "model_checking",
-		Rule:  "per claim type, every claim in the product of per-field value domains (values containing the path separator, reordered lists, boundary integers) that passes ValidateBasic is hashed and bucketed; inside a bucket all claims must agree on every executed field. Schedule half: for every single-field-different pair, oracle 1 votes one and oracle 2 the other (both orders) in the real keeper with a 2-of-2 quorum; the event must not become observed. states = distinct hash buckets; transitions = votes delivered",
+		Rule:  "per claim type, every claim in the product of per-field value domains (values containing the path separator, reordered lists, boundary integers) that passes ValidateBasic is hashed and bucketed; inside a bucket all claims must agree on every executed field. Schedule half: for every single-field-different pair, oracle 1 votes one and oracle 2 the other (both orders) in the real keeper with a 2-of-2 quorum; the event must not become observed. states = distinct hash buckets; transitions = votes delivered. Tally half (E1): every order of votes by four equal oracles for two competing claims per nonce plus executeClaim calls, to the depth bound; in every state each stored attestation lists only oracles whose accepted vote named exactly that claim, at most one attestation per nonce is observed, and the receiver holds the amounts of the observed variants",
 		Assumptions: []string{
 			"executed fields per claim type are read off the handlers (listed in props/c03/c03.go: relevant)",
 			"value domains are finite (2-6 values per field); collisions that need values outside the domains are not found",
 		},
 		Jobs: func(tier string) []registry.Job {
-			return []registry.Job{{Name: "claim-hash", Custom: run(tier == "thorough"), Shards: 1}}
+			// tally half: four equal oracles (3-of-4 quorum), two competing claims per nonce, every vote order; in every
+			// state each attestation's recorded voters must be oracles whose accepted vote named exactly that claim
+			depth := 6
+			if tier == "thorough" {
+				depth = 8
+			}
+			return []registry.Job{
+				{Name: "claim-hash", Custom: run(tier == "thorough"), Shards: 1},
+				{Name: "competing-claims-tally", Spec: &vote.Spec{Prop: "C03", Chain: "eth", Stakes: []int64{10000, 10000, 10000, 10000}, Variants: []string{"A", "B"}, Execute: true, MaxNonce: 3}, Depth: depth, ShardDepth: 2},
+			}
 		},
 	})
 }
